@@ -1561,4 +1561,255 @@ def wListEvent : JTree := .obj [(ka, .obj [(kb, .str [107]), (kc, .str wSecret)]
 theorem wList_ok : LoopOk wCutRe 0 wListCfg.masks := wCutRe_ok
 
 
+
+/-! ### `Do` without per-mask `applied_field`s: the root loop is traverseTree on the root -/
+
+/-- no mask writes an `applied_field` -/
+def NoMarks (c : Cfg) : Prop := ∀ m ∈ c.masks, m.appliedField = []
+
+theorem maskStep_effs (impl : Impl) (c : Cfg) (re : Oracle) (value : Bytes) (fm : Option FMNode) (i : Nat)
+    (m : MaskCfg) (hm : m.appliedField = []) (s s' : PM) (h : maskStep impl c re value fm i m s = .ok s') :
+    s'.effs = s.effs := by
+  unfold maskStep at h
+  simp only [hm, List.isEmpty_nil, ↓reduceIte] at h
+  split at h
+  · cases h; rfl
+  · split at h
+    · cases h; rfl
+    · split at h
+      · split at h
+        · cases h
+        · rename_i idx _
+          cases hr : liftGo (impl.maskValue m idx (if impl.needCopy s.src s.copied = true then value else s.src) s.maskBuf) with
+          | error e => rw [hr] at h; cases h
+          | ok r =>
+            rw [hr] at h
+            simp only [bind, Except.bind] at h
+            split at h <;> (cases h; rfl)
+      · cases h; rfl
+
+theorem maskLoop_effs (impl : Impl) (c : Cfg) (re : Oracle) (value : Bytes) (fm : Option FMNode) :
+    ∀ (ms : List MaskCfg) (i : Nat) (s s' : PM), (∀ m ∈ ms, m.appliedField = []) →
+    maskLoop impl c re value fm i ms s = .ok s' → s'.effs = s.effs
+  | [], _, s, s', _, h => by cases h; rfl
+  | m :: ms, i, s, s', hm, h => by
+    unfold maskLoop at h
+    cases h1 : maskStep impl c re value fm i m s with
+    | error e => rw [h1] at h; cases h
+    | ok s1 =>
+      rw [h1] at h
+      have e1 := maskStep_effs impl c re value fm i m (hm m List.mem_cons_self) s s1 h1
+      have e2 := maskLoop_effs impl c re value fm ms (i + 1) s1 s' (fun m' h' => hm m' (List.mem_cons_of_mem _ h')) h
+      rw [e2, e1]
+
+theorem processMask_effs (impl : Impl) (c : Cfg) (re : Oracle) (hn : NoMarks c) (v : Bytes) (fm : Option FMNode)
+    (st : St) (r : Option Bytes × St) (h : processMask impl c re v fm st = .ok r) : r.2.effs = st.effs := by
+  unfold processMask at h
+  split at h
+  · cases h; rfl
+  · cases h1 : maskLoop impl c re v fm 0 c.masks { effs := st.effs, counts := st.counts } with
+    | error e => rw [h1] at h; cases h
+    | ok s =>
+      rw [h1] at h
+      cases h
+      exact maskLoop_effs impl c re v fm c.masks 0 _ s hn h1
+
+
+
+mutual
+  theorem trav_effs (impl : Impl) (c : Cfg) (re : Oracle) (hn : NoMarks c) :
+      ∀ (t : JTree) (fm : Option FMNode) (st : St) (r : JTree × St),
+      trav impl c re t fm st = .ok r → r.2.effs = st.effs
+    | .str s, fm, st, r, h => by
+      simp only [trav, bind, Except.bind] at h
+      cases h1 : processMask impl c re s fm st with
+      | error e => rw [h1] at h; cases h
+      | ok r1 => rw [h1] at h; cases h; exact processMask_effs impl c re hn s fm st r1 h1
+    | .num s, fm, st, r, h => by
+      simp only [trav, bind, Except.bind] at h
+      cases h1 : processMask impl c re s fm st with
+      | error e => rw [h1] at h; cases h
+      | ok r1 => rw [h1] at h; cases h; exact processMask_effs impl c re hn s fm st r1 h1
+    | .obj kvs, fm, st, r, h => by
+      simp only [trav, bind, Except.bind] at h
+      cases h1 : travKVs impl c re kvs fm st with
+      | error e => rw [h1] at h; cases h
+      | ok r1 => rw [h1] at h; cases h; exact travKVs_effs impl c re hn kvs fm st r1 h1
+    | .arr xs, fm, st, r, h => by
+      simp only [trav, bind, Except.bind] at h
+      cases h1 : travArr impl c re xs 0 fm st with
+      | error e => rw [h1] at h; cases h
+      | ok r1 => rw [h1] at h; cases h; exact travArr_effs impl c re hn xs 0 fm st r1 h1
+    | .null, _, st, r, h => by simp [trav, pure, Except.pure] at h; rw [← h]
+    | .bool _, _, st, r, h => by simp [trav, pure, Except.pure] at h; rw [← h]
+  theorem travKVs_effs (impl : Impl) (c : Cfg) (re : Oracle) (hn : NoMarks c) :
+      ∀ (kvs : List (Bytes × JTree)) (fm : Option FMNode) (st : St) (r : List (Bytes × JTree) × St),
+      travKVs impl c re kvs fm st = .ok r → r.2.effs = st.effs
+    | [], _, st, r, h => by simp [travKVs, pure, Except.pure] at h; rw [← h]
+    | (k, v) :: rest, fm, st, r, h => by
+      simp only [travKVs] at h
+      split at h
+      · simp only [bind, Except.bind] at h
+        cases h1 : travKVs impl c re rest fm st with
+        | error e => rw [h1] at h; cases h
+        | ok r1 => rw [h1] at h; cases h; exact travKVs_effs impl c re hn rest fm st r1 h1
+      · simp only [bind, Except.bind] at h
+        rename_i next _
+        cases h1 : trav impl c re v next st with
+        | error e => rw [h1] at h; cases h
+        | ok rv =>
+          rw [h1] at h
+          simp only at h
+          cases h2 : travKVs impl c re rest fm rv.2 with
+          | error e => rw [h2] at h; cases h
+          | ok r1 =>
+            rw [h2] at h; cases h
+            rw [travKVs_effs impl c re hn rest fm rv.2 r1 h2, trav_effs impl c re hn v next st rv h1]
+  theorem travArr_effs (impl : Impl) (c : Cfg) (re : Oracle) (hn : NoMarks c) :
+      ∀ (xs : List JTree) (i : Nat) (fm : Option FMNode) (st : St) (r : List JTree × St),
+      travArr impl c re xs i fm st = .ok r → r.2.effs = st.effs
+    | [], _, _, st, r, h => by simp [travArr, pure, Except.pure] at h; rw [← h]
+    | x :: rest, i, fm, st, r, h => by
+      simp only [travArr, bind, Except.bind] at h
+      cases h1 : trav impl c re x (elemNext impl fm i) st with
+      | error e => rw [h1] at h; cases h
+      | ok rv =>
+        rw [h1] at h
+        simp only at h
+        cases h2 : travArr impl c re rest (i + 1) fm rv.2 with
+        | error e => rw [h2] at h; cases h
+        | ok r1 =>
+          rw [h2] at h; cases h
+          rw [travArr_effs impl c re hn rest (i + 1) fm rv.2 r1 h2, trav_effs impl c re hn x _ st rv h1]
+end
+
+
+
+/-- map over the ok value -/
+def mapOk {α β} (f : α → β) : M α → M β
+  | .ok a => .ok (f a)
+  | .error e => .error e
+
+theorem st_eta (st : St) (h : st.effs = []) : { st with effs := [] } = st := by
+  cases st; simp_all
+
+/-- without marks, handling one node of the root is traverseTree on it plus the write-back -/
+theorem doNode_eq (impl : Impl) (c : Cfg) (re : Oracle) (hn : NoMarks c) (root v : JTree)
+    (fm : Option FMNode) (wr : JTree → JTree → JTree) (st : St) (he : st.effs = []) (hw : wr root v = root) :
+    doNode impl c re root v fm wr st = mapOk (fun r => (wr root r.1, r.2)) (trav impl c re v fm st) := by
+  cases v with
+  | str s =>
+    simp only [doNode, trav, st_eta st he, bind, Except.bind]
+    cases h1 : processMask impl c re s fm st with
+    | error e => rfl
+    | ok r =>
+      have e1 := processMask_effs impl c re hn s fm st r h1
+      rw [he] at e1
+      simp only [mapOk, e1, applyEffs, pure, Except.pure, st_eta r.2 e1]
+      cases r.1 <;> simp [hw]
+  | num s =>
+    simp only [doNode, trav, st_eta st he, bind, Except.bind]
+    cases h1 : processMask impl c re s fm st with
+    | error e => rfl
+    | ok r =>
+      have e1 := processMask_effs impl c re hn s fm st r h1
+      rw [he] at e1
+      simp only [mapOk, e1, applyEffs, pure, Except.pure, st_eta r.2 e1]
+      cases r.1 <;> simp [hw]
+  | obj kvs =>
+    simp only [doNode, st_eta st he, bind, Except.bind]
+    cases h1 : trav impl c re (.obj kvs) fm st with
+    | error e => rfl
+    | ok r =>
+      have e1 := trav_effs impl c re hn _ fm st r h1
+      rw [he] at e1
+      simp only [mapOk, e1, applyEffs, pure, Except.pure, st_eta r.2 e1]
+  | arr xs =>
+    simp only [doNode, st_eta st he, bind, Except.bind]
+    cases h1 : trav impl c re (.arr xs) fm st with
+    | error e => rfl
+    | ok r =>
+      have e1 := trav_effs impl c re hn _ fm st r h1
+      rw [he] at e1
+      simp only [mapOk, e1, applyEffs, pure, Except.pure, st_eta r.2 e1]
+  | null =>
+    simp only [doNode, st_eta st he, bind, Except.bind]
+    cases h1 : trav impl c re .null fm st with
+    | error e => rfl
+    | ok r =>
+      have e1 := trav_effs impl c re hn _ fm st r h1
+      rw [he] at e1
+      simp only [mapOk, e1, applyEffs, pure, Except.pure, st_eta r.2 e1]
+  | bool b =>
+    simp only [doNode, st_eta st he, bind, Except.bind]
+    cases h1 : trav impl c re (.bool b) fm st with
+    | error e => rfl
+    | ok r =>
+      have e1 := trav_effs impl c re hn _ fm st r h1
+      rw [he] at e1
+      simp only [mapOk, e1, applyEffs, pure, Except.pure, st_eta r.2 e1]
+
+theorem setIdxKV_append (done : List (Bytes × JTree)) (k : Bytes) (v v' : JTree) (rest : List (Bytes × JTree)) :
+    setIdxKV done.length v' (done ++ (k, v) :: rest) = done ++ (k, v') :: rest := by
+  induction done with
+  | nil => rfl
+  | cons d ds ih => obtain ⟨dk, dv⟩ := d; simp [setIdxKV, ih]
+
+/-- without marks the loop over the root's fields is `travKVs` on them -/
+theorem rootLoop_eq (impl : Impl) (c : Cfg) (re : Oracle) (hn : NoMarks c) (fm : Option FMNode) :
+    ∀ (todo done : List (Bytes × JTree)) (st : St), st.effs = [] →
+    rootLoop impl c re fm todo.length done.length (.obj (done ++ todo)) st
+      = mapOk (fun r => (JTree.obj (done ++ r.1), r.2)) (travKVs impl c re todo fm st)
+  | [], done, st, _ => by simp [rootLoop, travKVs, mapOk, pure, Except.pure]
+  | (k, v) :: rest, done, st, he => by
+    have hget : (done ++ (k, v) :: rest)[done.length]? = some (k, v) := by simp
+    simp only [List.length_cons, rootLoop, hget, travKVs]
+    cases hf : fieldNext impl c fm k with
+    | none =>
+      simp only
+      have ih := rootLoop_eq impl c re hn fm rest (done ++ [(k, v)]) st he
+      simp only [List.length_append, List.length_cons, List.length_nil, List.append_assoc, List.cons_append,
+        List.nil_append, Nat.zero_add] at ih
+      rw [ih]
+      cases travKVs impl c re rest fm st with
+      | error e => rfl
+      | ok r => simp [mapOk, bind, Except.bind, pure, Except.pure]
+    | some next =>
+      simp only
+      have hw : setRootIdx done.length (.obj (done ++ (k, v) :: rest)) v = .obj (done ++ (k, v) :: rest) := by
+        simp [setRootIdx, setIdxKV_append]
+      rw [doNode_eq impl c re hn _ v next _ st he hw]
+      cases h1 : trav impl c re v next st with
+      | error e => simp [mapOk, bind, Except.bind]
+      | ok rv =>
+        have e1 := trav_effs impl c re hn v next st rv h1
+        rw [he] at e1
+        simp only [mapOk, bind, Except.bind, setRootIdx, setIdxKV_append]
+        have ih := rootLoop_eq impl c re hn fm rest (done ++ [(k, rv.1)]) rv.2 e1
+        simp only [List.length_append, List.length_cons, List.length_nil, List.append_assoc, List.cons_append,
+          List.nil_append, Nat.zero_add] at ih
+        rw [ih]
+        cases travKVs impl c re rest fm rv.2 with
+        | error e => rfl
+        | ok r => simp [mapOk, pure, Except.pure]
+
+/-- **`Do` (repaired) on an object event, general path, no per-mask `applied_field`**: the spec's
+    event, then the plugin's mark and the metrics -/
+theorem doEvent_eq (c : Cfg) (re : Oracle) (hok : LoopOk re 0 c.masks) (hn : NoMarks c)
+    (hfast : (c.hasGlobalProcess && !c.hasMaskSpecific) = false) (kvs : List (Bytes × JTree)) :
+    doEvent fixedImpl c re (.obj kvs) =
+      match specTree c re [] (.obj kvs) with
+      | none => .error .oracleMiss
+      | some (t', ap) => .ok (finish c (t', addAp { counts := c.masks.map (fun _ => 0) } ap)) := by
+  have h1 := rootLoop_eq fixedImpl c re hn c.fmRoot kvs [] { counts := c.masks.map (fun _ => 0) } rfl
+  simp only [List.length_nil, List.nil_append] at h1
+  have h2 := travKVs_eq c re hok kvs [] { counts := c.masks.map (fun _ => 0) }
+  rw [fmAt_nil] at h2
+  unfold doEvent traverseRoot
+  simp only [hfast, Bool.false_eq_true, ↓reduceIte, h1, h2, specTree]
+  cases specKVs c re [] kvs with
+  | none => rfl
+  | some r => rfl
+
+
 end FileD.MaskLemmas
